@@ -14,13 +14,21 @@ EXPLANATION = ("R20.1 framing: on every path of every emitting body of the file 
                "first reading is cached also in UTC mode); R20.4 each provided format function renders record.args() through Display exactly once "
                "on every successful path and takes level/module/file/line from the record's accessors. R20.5 each output stream is rendered with its own configured format function (duplication table shared with R13.3)."
                " R20.6 (= R13.7) stream wiring of the format functions from the Logger setters to the writers' fields."
-               " R20.7 line-ending and format wiring: use_windows_line_ending() reaches config.line_ending as CRLF; format_for_files reaches the file writer, format_for_writer the additional writer (shared configuration-wiring tables, rules/cfgwiring.py).")
+               " R20.7 line-ending and format wiring: use_windows_line_ending() reaches config.line_ending as CRLF; format_for_files reaches the file writer, format_for_writer the additional writer (shared configuration-wiring tables, rules/cfgwiring.py)."
+               " R20.8 (async, shared with R03.3/R03.4): pooled message buffers are cleared immediately before they return to the pool, so a record formatted into one is exactly format output plus one line ending.")
 ASSUMPTIONS = ["serde_json::to_string yields one valid single-line JSON object (serde_json)", "nu_ansi_term::paint only wraps the text", "chrono formatting"]
 NOT_DECIDED = ["byte-exact rendering", "JSON escaping", "ANSI wrapping"]
 FLOORS = {'R20.1': 4, 'R20.2': 9, 'R20.3': 4, 'R20.4': 9}
 
 
 def run(R, ctx):
+    if ctx.has('async'):
+        # framing in the async modes: a record is formatted into a POOLED buffer that must be empty - a buffer that returns to the pool with bytes in it
+        # (truncated instead of cleared, or a processed control message) prefixes a later record: its bytes are no longer format output + one line ending
+        # (rules of the async hand-over shared with R03.3 / R03.4)
+        R.rule('R20.8', 'async framing: pooled buffers are cleared before they are reused (shared with R03.3/R03.4)')
+        import c03 as _c03p
+        _c03p.async_rules(Relabel(R, {'R03.3': 'R20.8', 'R03.4': 'R20.8'}), ctx)
     R.rule('R20.7', 'line-ending and format wiring: use_windows_line_ending() reaches config.line_ending as CRLF; format_for_files reaches the file writer, format_for_writer the additional writer')
     import cfgwiring
     cfgwiring.config_wiring(R, ctx, 'R20.7', 'C20')
